@@ -49,3 +49,24 @@ PROPS['C07'] = {
     'not_decided': ['parser classification of asm instruction lines', 'format_into_buf wiring (ignorers -> marker -> FormattedTokens)'],
     'explanation': 'function-level contracts on the verbatim path; composition through Formatter::format is by reading',
 }
+
+# properties not (or not yet) claimed; bin/mkmanifest lists those that are not in PROPS
+NOT_APPLICABLE = {
+    'C01': 'not yet wired in this revision (units recon/rewriters under construction)',
+    'C02': 'not yet wired in this revision',
+    'C03': 'not yet wired in this revision',
+    'C04': 'not yet wired in this revision',
+    'C05': 'not yet wired in this revision',
+    'C06': 'not yet wired in this revision',
+    'C08': 'not yet wired in this revision',
+    'C09': 'not yet wired in this revision',
+    'C10': 'not yet wired in this revision',
+    'C11': 'not yet wired in this revision',
+    'C12': 'the property is a contract on try_rewrite_string/lines_custom; Verus rejects its iterator/closure code and Kani did not finish even lines_custom alone on 6 bytes within 12 minutes (DESIGN.md 3, 6)',
+    'C14': 'needs contracts on DirectiveTree pass construction and the parser token primitives; Verus rejects them (iterator-generic recursion, fn-pointer predicates) and Kani finished neither on 2-3 tokens (DESIGN.md 3, 6)',
+    'C15': 'not yet wired in this revision',
+    'C16': 'not yet wired in this revision',
+    'C17': 'not yet wired in this revision',
+    'C18': 'quantifies over schedules of a rayon pool: Kani has no threads, Verus would need the code rewritten onto its permission types (a model) (DESIGN.md 6)',
+    'C19': 'precedence lives in config::ConfigBuilder, serde(deny_unknown_fields), clap and a directory walk on the real file system: no function-level contract of repository code can express it (DESIGN.md 6)',
+}
